@@ -455,6 +455,7 @@ func completeAt(m *material, c int) (int, bool) {
 func (x *c07Run) runStream(sc *c07Scenario, m *material) {
 	res := x.res
 	core.Current, core.CurrentSig = sc, "scan"
+	core.Tick()
 	processBoundary()
 	r := scanAll(m.data, sc.Pipe, 0)
 	res.Evaluations++
@@ -851,6 +852,7 @@ func (C07) RunSeed(tier string, seed uint64, idx int) *core.Result {
 			sc := &c07Scenario{Kind: "string", Func: fn, Input: in}
 			core.Current, core.CurrentSig = sc, "string:"+fn
 			res.Evaluations++
+			core.Tick()
 			pnc := callString(fn, in)
 			oc := "returned"
 			if pnc != "" {
